@@ -126,24 +126,78 @@ type ObserveOpts struct {
 	CrossCheck bool
 }
 
+// Holder keeps what the accessors returned (the slices and pointers themselves)
+// next to a private copy taken at once; Check, called after further reading,
+// reports a result that changed afterwards: a caller may keep what it was given
+// (Unmarshal stores the []byte of a blob in the target as it is).
+type Holder struct {
+	items []heldItem
+	bytes int
+}
+
+type heldItem struct {
+	what string
+	now  func() string
+	then string
+}
+
+func (h *Holder) hold(what string, now func() string) {
+	if h == nil || len(h.items) >= 2048 {
+		return
+	}
+	h.items = append(h.items, heldItem{what, now, now()})
+}
+
+func (h *Holder) holdBytes(p []byte) {
+	if h == nil || len(p) == 0 || h.bytes+len(p) > 4<<20 {
+		return
+	}
+	h.bytes += len(p)
+	h.hold("ByteValue", func() string { return string(p) })
+}
+
+// Check compares every held result with its copy.
+func (h *Holder) Check() error {
+	if h == nil {
+		return nil
+	}
+	for i, it := range h.items {
+		if got := it.now(); got != it.then {
+			return fmt.Errorf("the result of %s (held result %d of %d) changed after further reading: it was %s and is now %s", it.what, i+1, len(h.items), clipS(it.then), clipS(got))
+		}
+	}
+	return nil
+}
+
+func clipS(s string) string {
+	if len(s) > 120 {
+		return fmt.Sprintf("%q... (%d bytes)", s[:120], len(s))
+	}
+	return fmt.Sprintf("%q", s)
+}
+
 // Observe fully traverses r and returns the values seen and the terminal error
 // (r.Err() or an accessor error). A panic is returned as *PanicError.
 func Observe(r ion.Reader) (vals []model.Value, err error) {
 	err = Guard(func() error {
 		var e error
-		vals, e = observeSeq(r, false)
+		h := &Holder{}
+		vals, e = observeSeq(r, h)
 		if e != nil {
 			return e
 		}
-		return r.Err()
+		if e = r.Err(); e != nil {
+			return e
+		}
+		return h.Check()
 	})
 	return
 }
 
-func observeSeq(r ion.Reader, inStruct bool) ([]model.Value, error) {
+func observeSeq(r ion.Reader, h *Holder) ([]model.Value, error) {
 	var out []model.Value
 	for r.Next() {
-		v, err := ObserveCurrent(r)
+		v, err := ObserveCurrentH(r, h)
 		if err != nil {
 			return out, err
 		}
@@ -153,7 +207,7 @@ func observeSeq(r ion.Reader, inStruct bool) ([]model.Value, error) {
 }
 
 // ObserveFields is observeSeq for struct members.
-func observeFields(r ion.Reader) ([]model.Field, error) {
+func observeFields(r ion.Reader, h *Holder) ([]model.Field, error) {
 	var out []model.Field
 	for r.Next() {
 		fn, err := r.FieldName()
@@ -166,7 +220,8 @@ func observeFields(r ion.Reader) ([]model.Field, error) {
 		if !r.IsInStruct() {
 			return out, fmt.Errorf("harness: IsInStruct() false inside a struct")
 		}
-		v, err := ObserveCurrent(r)
+		h.hold("FieldName", func() string { return SymOf(fn).String() })
+		v, err := ObserveCurrentH(r, h)
 		if err != nil {
 			return out, err
 		}
@@ -177,7 +232,10 @@ func observeFields(r ion.Reader) ([]model.Field, error) {
 
 // ObserveCurrent reads the value the reader is positioned on (recursing into
 // containers and stepping back out).
-func ObserveCurrent(r ion.Reader) (model.Value, error) {
+func ObserveCurrent(r ion.Reader) (model.Value, error) { return ObserveCurrentH(r, nil) }
+
+// ObserveCurrentH is ObserveCurrent that also records the raw results in h.
+func ObserveCurrentH(r ion.Reader, h *Holder) (model.Value, error) {
 	var v model.Value
 	k, ok := KindOf(r.Type())
 	if !ok {
@@ -190,6 +248,9 @@ func ObserveCurrent(r ion.Reader) (model.Value, error) {
 	}
 	for i := range as {
 		v.Ann = append(v.Ann, SymOf(&as[i]))
+	}
+	if len(as) > 0 {
+		h.hold("Annotations", func() string { return fmt.Sprint(len(as), SymOf(&as[0]), SymOf(&as[len(as)-1])) })
 	}
 	v.IsNull = r.IsNull()
 	if k == model.Null {
@@ -221,6 +282,7 @@ func ObserveCurrent(r ion.Reader) (model.Value, error) {
 		}
 		if p != nil {
 			v.Int = new(big.Int).Set(p)
+			h.hold("BigIntValue", func() string { return p.String() })
 		}
 	case model.Float:
 		p, err := r.FloatValue()
@@ -243,6 +305,7 @@ func ObserveCurrent(r ion.Reader) (model.Value, error) {
 		}
 		if p != nil {
 			v.Dec = DecOf(p)
+			h.hold("DecimalValue", func() string { return p.String() })
 		}
 	case model.Timestamp:
 		p, err := r.TimestampValue()
@@ -254,6 +317,7 @@ func ObserveCurrent(r ion.Reader) (model.Value, error) {
 		}
 		if p != nil {
 			v.TS = TSOf(*p)
+			h.hold("TimestampValue", func() string { return p.String() })
 		}
 	case model.Symbol:
 		p, err := r.SymbolValue()
@@ -265,6 +329,7 @@ func ObserveCurrent(r ion.Reader) (model.Value, error) {
 		}
 		if p != nil {
 			v.Sym = SymOf(p)
+			h.hold("SymbolValue", func() string { return SymOf(p).String() })
 		}
 	case model.String:
 		p, err := r.StringValue()
@@ -276,6 +341,7 @@ func ObserveCurrent(r ion.Reader) (model.Value, error) {
 		}
 		if p != nil {
 			v.Text = *p
+			h.hold("StringValue", func() string { return *p })
 		}
 	case model.Clob, model.Blob:
 		p, err := r.ByteValue()
@@ -286,6 +352,7 @@ func ObserveCurrent(r ion.Reader) (model.Value, error) {
 			return v, fmt.Errorf("harness: ByteValue non-nil but IsNull")
 		}
 		v.Bytes = append([]byte{}, p...)
+		h.holdBytes(p)
 	case model.List, model.Sexp, model.Struct:
 		if v.IsNull {
 			return v, nil
@@ -294,13 +361,13 @@ func ObserveCurrent(r ion.Reader) (model.Value, error) {
 			return v, fmt.Errorf("StepIn: %w", err)
 		}
 		if k == model.Struct {
-			fs, err := observeFields(r)
+			fs, err := observeFields(r, h)
 			v.Fields = fs
 			if err != nil {
 				return v, err
 			}
 		} else {
-			es, err := observeSeq(r, false)
+			es, err := observeSeq(r, h)
 			v.Elems = es
 			if err != nil {
 				return v, err
@@ -341,11 +408,15 @@ func Observe2(mk func() ion.Reader) (vals []model.Value, err error) {
 	err = Guard(func() error {
 		r := mk()
 		var e error
-		vals, e = observeSeq(r, false)
+		h := &Holder{}
+		vals, e = observeSeq(r, h)
 		if e != nil {
 			return e
 		}
-		return r.Err()
+		if e = r.Err(); e != nil {
+			return e
+		}
+		return h.Check()
 	})
 	return
 }
